@@ -64,12 +64,18 @@ func (s *Sim) opWeights() weights {
 	}
 	if s.faultOn("xchan_reorder") {
 		w["batch"] = 5
+		if s.cfg.Race {
+			w["batch"] = 30
+		}
 	}
 	if s.faultOn("req_dup") {
 		w["dup"] = 3
 	}
 	if s.faultOn("deadline_race") {
 		w["timed"] = 6
+	}
+	if s.faultOn("rest_read") {
+		w["rest"] = 4
 	}
 	if s.faultOn("confirm_late") {
 		w["swap_race"] = 4
@@ -528,7 +534,21 @@ func (s *Sim) genOpOf(kind string) (Op, bool) {
 			n := r.Range(2, 3)
 			saved := s.cfg.Faults
 			for tries := 0; len(sub) < n && tries < 12; tries++ {
-				k := s.pickKind(weights{"sched": 5, "ask": 3, "release": 3, "node_update": 2, "node_remove": 1, "node_drain": 1, "app_remove": 1, "foreign": 2, "app_add": 1, "rm_place": 1})
+				bw := weights{"sched": 5, "ask": 3, "release": 3, "node_update": 2, "node_remove": 1, "node_drain": 1, "app_remove": 1, "foreign": 2, "app_add": 1, "rm_place": 1}
+				if saved["rest_read"] {
+					bw["rest"] = 4
+				}
+				if s.cfg.Race {
+					bw["app_add"] = 4
+					bw["node_add"] = 2
+				}
+				if saved["reload_valid"] {
+					bw["reload"] = 2
+				}
+				if s.cfg.Auto {
+					bw["tick"] = 2
+				}
+				k := s.pickKind(bw)
 				f := map[string]bool{}
 				for kk, v := range saved {
 					f[kk] = v
@@ -546,6 +566,9 @@ func (s *Sim) genOpOf(kind string) (Op, bool) {
 			}
 			s.faults["xchan_reorder"]++
 			return Op{Kind: "batch", Sub: sub}, true
+		case "rest":
+			s.faults["rest_read"]++
+			return Op{Kind: "rest", N: r.Range(1, 4)}, true
 		case "timed":
 			if op, ok := s.genTimed(); ok {
 				return op, true
